@@ -93,7 +93,7 @@ def gen_osu_doc(r: random.Random, hi: int = 10, keys: int | None = None) -> dict
         tags=list(r.choice([[], ["a"], ["a", "b"], ["x:y", "日本"], ["t1", "t2", "t3"], ["al", "be\u2028ta", "ga"], ["n\x85l", "f\x0cf"]])),
         beatmap_id=r.choice([0, 12345, 999999]), beatmap_set_id=r.choice([-1, 5555, 123]),
         hp_drain_rate=r.choice([5, 8, 7.5, 0, 10]), circle_size=keys, overall_difficulty=r.choice([5, 8, 8.5, 0, 10]),
-        approach_rate=r.choice([5, 9]), slider_multiplier=r.choice([1.4, 1, 3.6]), slider_tick_rate=r.choice([1, 2, 4]),
+        approach_rate=r.choice([5, 9]), slider_multiplier=r.choice([1.4, 1, 3.6]), slider_tick_rate=r.choice([1, 2, 4, 0.5, 1.5, 2.5]),
     )
     for k in r.sample(["audio_lead_in", "countdown", "stack_leniency", "letterbox_in_breaks", "special_style", "widescreen_storyboard",
                        "source", "beatmap_id", "beatmap_set_id", "distance_spacing", "grid_size", "timeline_zoom", "approach_rate"],
@@ -113,7 +113,9 @@ QUA_STR = ["Song", "A B", "x", "a: b", "# not a comment", "- dash", "[x]", "{y}"
            "~", "123", "1.5", "true", "曲", "Ünï", "a,b", "k: v: w", "@at", "`tick`", "%pct", "!bang", "*star", "&amp", "|pipe", ">gt", "",
            "multi  space", "emoji 🎵", "0x1F", "1e3", ".inf", "2021-01-01",
            # line breaks inside a value: YAML writes them as blank lines of a quoted scalar / literal block
-           "first paragraph\nsecond line\n\nafter an empty line", "ends with a break\n", "two\nlines", "\nleading break", "a\n\n\nb"]
+           "first paragraph\nsecond line\n\nafter an empty line", "ends with a break\n", "two\nlines", "\nleading break", "a\n\n\nb",
+           # U+0085 NEXT LINE is a line break to YAML unless the writer escapes it
+           "Don\x85t stop", "a\x85\nb"]
 
 
 def gen_qua_doc(r: random.Random, hi: int = 10) -> dict:
@@ -262,7 +264,10 @@ def gen_sm_doc(r: random.Random, hi: int = 4, pipeline: dict | None = None) -> d
         for _ in range(r.choice([1, 1, 2])):
             bpms.insert(i + 1, [bpms[i][0], r.choice([v for v in SM_BPM_STR if v != bpms[i][1]])])
     elif r.random() < 0.3:
-        r.shuffle(bpms[1:])
+        if r.random() < 0.5:
+            r.shuffle(bpms)  # the entry of beat 0 need not be listed first
+        else:
+            r.shuffle(bpms[1:])
     meta = dict(TITLE=r.choice(SM_STR), SUBTITLE=r.choice(SM_STR), ARTIST=r.choice(SM_STR), TITLETRANSLIT=r.choice(["", "tt"]),
                 SUBTITLETRANSLIT="", ARTISTTRANSLIT=r.choice(["", "at"]), GENRE=r.choice(["", "g"]), CREDIT=r.choice(SM_STR),
                 BANNER=r.choice(["", "bn.png"]), BACKGROUND=r.choice(["", "bg.jpg", "背景.png"]), LYRICSPATH="", CDTITLE="",
@@ -489,6 +494,8 @@ def gen_bms_doc(r: random.Random, hi: int = 6, layout: str | None = None, odd_te
             used: set = set()
             for _ in range(n_lines):
                 n = r.choice(fam[m] if pipeline else BMS_SUBDIV)
+                if not pipeline and r.random() < 0.06:
+                    n = r.choice([384, 768, 401, 1000])  # lines finer than 1/100 of a beat (positions stay exact fractions)
                 seq = [b"00"] * n
                 k = r.randint(1, max(1, min(n, 3)))
                 idxs = sorted(r.sample(range(n), min(k, n)))
